@@ -135,5 +135,12 @@ def tasks(tier):
     for order in (1, 2, 3):
         out.append(Task("C16/control-chain[order=%d]" % order, lambda order=order: control_chain(order), kind="bounded", bound=dict(order=order),
                         replay=dict(harness="task_probe", module="contracts.c16", task="C16/control-chain[order=%d]" % order, tier=tier)))
+    # der() of a b-spline signal, and of that derivative, ...: the analytic derivative in PHYSICAL time along the whole chain
+    from . import c17
+    for d in (2, 3):
+        for N, kname in ((2, "uniform"), (3, "geometric")):
+            inst = "C16/signal-derivative-chain[d=%d,N=%d,%s]" % (d, N, kname)
+            out.append(Task(inst, c17.guarded(lambda d=d, N=N, kname=kname: c17.signal_derivative_chain(d, N, kname), inst), kind="bounded", bound=dict(order=d, N=N, knots=kname, T="symbolic"),
+                            replay=dict(harness="task_probe", module="contracts.c16", task=inst, tier=tier)))
     out.append(Task("C16/signal", signal_der, kind="bounded", bound=dict(signal_order=2), replay=dict(harness="task_probe", module="contracts.c16", task="C16/signal", tier=tier)))
     return out
